@@ -4,6 +4,7 @@ The leaf kernels of the list denotation (FuraxProofs/Sem/ListSem.lean) commute w
 `leafDenT_length`).
 -/
 import FuraxProofs.Sem.ListSemLaws
+import FuraxProofs.Sem.ToeplitzLeaf
 namespace Furax
 namespace ListSem
 open Op
@@ -285,6 +286,10 @@ theorem leafDen_smul (E : Env) (u : Nat) (c : LeafCls) (p : Params) : Hom (leafD
     split
     · exact polMap_smul _ _ a xi
     · rfl
+  case toeplitz =>
+    split
+    · exact perLeaf_smul _ (fun li lo => toepLeaf_smul _ _ li lo) _ _ a xi
+    · exact E.hom u a xi
   all_goals exact E.hom u a xi
 
 theorem leafDenT_smul (E : Env) (u : Nat) (c : LeafCls) (p : Params) : Hom (leafDenT E u c p) := fun a y => by
@@ -312,6 +317,10 @@ theorem leafDenT_smul (E : Env) (u : Nat) (c : LeafCls) (p : Params) : Hom (leaf
     split
     · exact polTMap_smul _ _ a yi
     · rfl
+  case toeplitz =>
+    split
+    · exact perLeaf_smul _ (fun li lo => toepLeaf_smul _ _ li lo) _ _ a yi
+    · exact E.homT u a yi
   all_goals exact E.homT u a yi
 
 /-- the leaf kernels commute with multiplication by a scalar, for every input list -/
